@@ -127,9 +127,9 @@ Definition safe_paths (G : graph) (X : list edge) : list (option (list edge)) :=
 (* ------------------------------------------------------------------ DAG: bridges and safe_sequences *)
 Definition neqe (e e' : edge) : bool := negb (eqe e e').
 Definition remove_edge (G : graph) (e : edge) : graph := filter (neqe e) G.
-Definition nstep (G : graph) (v : node) : list node := map snd (out_edges G v).
+(* plain reachability = the product automaton with two empty sequences *)
 Definition reachb (G : graph) (v t : node) : bool :=
-  existsb (N.eqb t) (clos node N.eqb (nstep G) (S (length (gnodes G v))) [v]).
+  match sink_pairs G [] [] v t with [] => false | _ :: _ => true end.
 (* e is a v-t bridge: t is not reachable from v without e *)
 Definition bridgeb (G : graph) (v t : node) (e : edge) : bool := negb (reachb (remove_edge G e) v t).
 
